@@ -17,13 +17,16 @@ import (
 	"verifharness/internal/hx"
 	"verifharness/internal/jm"
 	"verifharness/internal/libtypes"
+	"verifharness/internal/memasm"
 )
 
 type input struct {
-	Type  string `json:"type"`  // libtypes entry name
+	Type  string `json:"type"`  // libtypes entry name ("" for harvested states)
 	Route int    `json:"route"` // 0 json, 1 port, 2 engine, 3 component
-	Mode  string `json:"mode"`  // rand | zero | empty | nil | badutf8
+	Mode  string `json:"mode"`  // rand | zero | empty | nil | badutf8 | harvest
 	Seed  uint64 `json:"seed"`
+	At    int    `json:"at,omitempty"`    // harvest: after this many engine events
+	Which int    `json:"which,omitempty"` // harvest: which component of the assembly
 }
 
 type obs struct {
@@ -38,16 +41,57 @@ type checkpointable interface {
 	LoadCheckpoint(r io.Reader) error
 }
 
-// shapeAll sets every slice / map in v to nil (mode "nil") or to empty non-nil ("empty").
+// composite reports whether values of t contain slices or maps below the top level.
+func composite(t reflect.Type) bool {
+	switch t.Kind() {
+	case reflect.Slice, reflect.Map:
+		return true
+	case reflect.Array:
+		return composite(t.Elem())
+	case reflect.Struct:
+		for i := 0; i < t.NumField(); i++ {
+			if !jm.ParseField(t.Field(i)).Skip && t.Field(i).PkgPath == "" && composite(t.Field(i).Type) {
+				return true
+			}
+		}
+	}
+	return false
+}
+
+// shapeAll sets every leaf slice / map in v to nil (mode "nil") or to empty non-nil
+// ("empty"); a slice or map whose elements themselves contain slices or maps keeps exactly
+// one element (shaped recursively), so that nested leaves are reached too.
 func shapeAll(v reflect.Value, empty bool) {
 	switch v.Kind() {
 	case reflect.Slice:
+		if composite(v.Type().Elem()) {
+			s := reflect.MakeSlice(v.Type(), 1, 1)
+			if v.Len() > 0 {
+				s.Index(0).Set(v.Index(0))
+			}
+			shapeAll(s.Index(0), empty)
+			v.Set(s)
+			return
+		}
 		if empty {
 			v.Set(reflect.MakeSlice(v.Type(), 0, 0))
 		} else {
 			v.Set(reflect.Zero(v.Type()))
 		}
 	case reflect.Map:
+		if composite(v.Type().Elem()) {
+			m := reflect.MakeMap(v.Type())
+			key := reflect.New(v.Type().Key()).Elem()
+			val := reflect.New(v.Type().Elem()).Elem()
+			if it := v.MapRange(); v.Len() > 0 && it.Next() {
+				key.Set(it.Key())
+				val.Set(it.Value())
+			}
+			shapeAll(val, empty)
+			m.SetMapIndex(key, val)
+			v.Set(m)
+			return
+		}
 		if empty {
 			v.Set(reflect.MakeMap(v.Type()))
 		} else {
@@ -187,22 +231,141 @@ func viaJSON(v reflect.Value) (reflect.Value, []byte, error) {
 
 func tagOf(t reflect.Type) string { return t.PkgPath() + "." + t.Name() }
 
+// harvest runs a random REAL memory assembly (memasm: agent -> [rob] -> caches -> memory
+// modules) and, after in.At engine events, takes the State of one of its components.
+func harvest(in input) (*libtypes.Entry, reflect.Value, error) {
+	r := hx.NewRand(in.Seed)
+	cfg := memasm.RandomConfig(r, memasm.GenOpts{MaxCaches: 2, AllowROB: true, NOps: 30, PIDs: 2})
+	a := memasm.Build(cfg)
+	var comps []any
+	if a.ROB != nil {
+		comps = append(comps, a.ROB)
+	}
+	for i := range a.WB {
+		if a.WB[i] != nil {
+			comps = append(comps, a.WB[i])
+		}
+	}
+	for i := range a.WT {
+		if a.WT[i] != nil {
+			comps = append(comps, a.WT[i])
+		}
+	}
+	for _, c := range a.Ideal {
+		if c != nil {
+			comps = append(comps, c)
+		}
+	}
+	for _, c := range a.Banked {
+		if c != nil {
+			comps = append(comps, c)
+		}
+	}
+	for _, c := range a.DRAM {
+		if c != nil {
+			comps = append(comps, c)
+		}
+	}
+	if len(comps) == 0 {
+		return nil, reflect.Value{}, fmt.Errorf("assembly without components")
+	}
+	comp := reflect.ValueOf(comps[in.Which%len(comps)]).Elem()
+	var snap reflect.Value
+	take := func() {
+		// deep copy through the real encoder is exactly what must not be assumed here:
+		// copy structurally instead
+		snap = deepCopy(comp.FieldByName("State"))
+	}
+	a.OnEvent(func(n int) {
+		if n == in.At {
+			take()
+		}
+	})
+	a.Run()
+	if !snap.IsValid() {
+		take() // the run was shorter: the final state
+	}
+	for _, e := range libtypes.All() {
+		if e.Kind == "state" && e.Type == snap.Type() {
+			e := e
+			return &e, snap, nil
+		}
+	}
+	return nil, reflect.Value{}, fmt.Errorf("state type %s is not a library type", snap.Type())
+}
+
+// deepCopy copies a value structurally (slices, maps and the private parts of the
+// containers included), so that the snapshot is not changed by the rest of the run.
+func deepCopy(v reflect.Value) reflect.Value {
+	out := reflect.New(v.Type()).Elem()
+	copyInto(out, jm.Addressable(v))
+	return out
+}
+
+func copyInto(dst, src reflect.Value) {
+	switch src.Kind() {
+	case reflect.Slice:
+		if src.IsNil() {
+			return
+		}
+		s := reflect.MakeSlice(src.Type(), src.Len(), src.Len())
+		for i := 0; i < src.Len(); i++ {
+			copyInto(s.Index(i), src.Index(i))
+		}
+		dst.Set(s)
+	case reflect.Array:
+		for i := 0; i < src.Len(); i++ {
+			copyInto(dst.Index(i), src.Index(i))
+		}
+	case reflect.Map:
+		if src.IsNil() {
+			return
+		}
+		m := reflect.MakeMap(src.Type())
+		it := src.MapRange()
+		for it.Next() {
+			val := reflect.New(src.Type().Elem()).Elem()
+			copyInto(val, jm.Addressable(it.Value()))
+			m.SetMapIndex(it.Key(), val)
+		}
+		dst.Set(m)
+	case reflect.Struct:
+		for i := 0; i < src.NumField(); i++ {
+			if jm.ParseField(src.Type().Field(i)).Skip {
+				continue
+			}
+			copyInto(jm.Field(dst, i), jm.Field(src, i))
+		}
+	case reflect.Pointer, reflect.Interface, reflect.Chan, reflect.Func:
+	default:
+		dst.Set(src)
+	}
+}
+
 func run(raw json.RawMessage) (hx.Case, error) {
 	var in input
 	if err := hx.UJ(raw, &in); err != nil {
 		return hx.Case{}, err
 	}
-	e := libtypes.Lookup(in.Type)
-	if e == nil {
-		return hx.Case{}, fmt.Errorf("unknown library type %q", in.Type)
+	var e *libtypes.Entry
+	var v reflect.Value
+	if in.Mode == "harvest" {
+		var err error
+		if e, v, err = harvest(in); err != nil {
+			return hx.Case{}, err
+		}
+	} else {
+		if e = libtypes.Lookup(in.Type); e == nil {
+			return hx.Case{}, fmt.Errorf("unknown library type %q", in.Type)
+		}
+		v = makeValue(e, in)
 	}
 	idx := -1
 	for i, x := range libtypes.All() {
-		if x.Name == in.Type {
+		if x.Name == e.Name {
 			idx = i
 		}
 	}
-	v := makeValue(e, in)
 	before := jm.ValueTerm(v)
 	var out reflect.Value
 	var doc []byte
@@ -258,7 +421,7 @@ func run(raw json.RawMessage) (hx.Case, error) {
 }
 
 func gen(r *hx.Rand, tier string) []json.RawMessage {
-	k := 3
+	k := 2
 	if tier == "thorough" {
 		k = 40
 	}
@@ -286,6 +449,15 @@ func gen(r *hx.Rand, tier string) []json.RawMessage {
 		if r.Chance(1, 4) {
 			add(input{Type: e.Name, Route: 0, Mode: "badutf8", Seed: r.U64()})
 		}
+	}
+	// states reached by real workloads: random memory assemblies, State of a random component
+	// harvested after a random number of engine events
+	nh := 24
+	if tier == "thorough" {
+		nh = 400
+	}
+	for i := 0; i < nh; i++ {
+		add(input{Mode: "harvest", Route: []int{0, 3}[i%2], Seed: r.U64(), At: 1 + r.Intn(400), Which: r.Intn(8)})
 	}
 	return out
 }
@@ -319,7 +491,9 @@ func init() {
 			"State types): the zero value, a value with every slice/map empty-but-non-nil, one with every slice/map nil, and random values " +
 			"(nil/empty/non-empty slices and maps, extreme integers, multi-byte and control-character strings, random bytes) through " +
 			"json.Marshal/Unmarshal (the document itself is compared with the model) and through the real port checkpoint (messages), " +
-			"serial-engine checkpoint (events) and modeling.Component checkpoint (States); a small malformed share with invalid UTF-8 strings. " +
+			"serial-engine checkpoint (events) and modeling.Component checkpoint (States); States HARVESTED from real workloads (random memasm " +
+			"assemblies agent -> [rob] -> caches -> ideal/banked/DRAM memory, State of a random component after a random number of engine " +
+			"events); a small malformed share with invalid UTF-8 strings. " +
 			"Non-trivial: the value is not the zero value of its type. Distinct = distinct input hash.",
 		Gen: gen, Run: run, Shrink: shrink,
 	})
